@@ -41,14 +41,21 @@ def gen(ctx):
     for ty in (1, 3, 4):
         hops_case(['S%d:%s' % (ty, ','.join(str(10 + i) for i in range(256)))], known=True)          # K1
         hops_case(['a5', 'S%d:%s' % (ty, ','.join(str(10 + i) for i in range(300)))], known=True)   # K1
+    # the far end of the two-octet range inside every segment type and as a plain hop: 65535 converts, 65536 does not
+    for ty in (1, 3, 4):
+        for a in (65534, 65535, 65536, 23456):
+            hops_case(['S%d:%d' % (ty, a)])
+            hops_case(['S%d:10,%d' % (ty, a), 'a%d' % a])
+            hops_case(['a%d' % a, 'S%d:%d,%d' % (ty, a, a)])
     for _ in range(300 if ctx.tier == 'quick' else 5000):
         toks = []
+        big = rng.chance(1, 2)      # half of the paths stay inside the two-octet range, so that the 16-bit conversion succeeds
         for _ in range(rng.below(6)):
             if rng.chance(2, 3):
-                base = rng.choice([1, 64000, 65530, 4200000000])
+                base = rng.choice([1, 64000, 65530, 4200000000] if big else [1, 64000, 65000])
                 toks += tok_run(base, rng.choice([1, 2, 3, 10, 255, 256, 260]))
             else:
-                toks.append('S%d:%s' % (rng.choice([1, 3, 4]), ','.join(str(rng.choice([1, 65535, 65536, 4294967295, rng.below(1 << 32)]))
+                toks.append('S%d:%s' % (rng.choice([1, 3, 4]), ','.join(str(rng.choice([1, 65535, 65536, 4294967295, rng.below(1 << 32)] if big else [1, 23456, 65534, 65535, rng.below(65536)]))
                                                                   for _ in range(rng.choice([0, 1, 2, 5, 255])))))
         hops_case(toks)
 
